@@ -415,6 +415,35 @@ def processConc (h : Hist) (b : Block) (otoks : List String) : Hist :=
       let dup (l : List Nat) : Bool := l.eraseDups.length != l.length
       let dupP : Bool := pids.eraseDups.length != pids.length
       let viol := h.concViol
+      -- C02 under concurrency: every accepted change of the block is relayed exactly once to every member of the sender's
+      -- session that neither joins nor leaves within the block (no flag is set in these histories)
+      let movers := tasks.filterMap fun (t : Nat × Option Req) => match t.2 with | some (.join ..) => some t.1 | _ => none
+      let relayIssues : List String := if !h.cfg.flags.isEmpty then [] else tasks.flatMap fun (t : Nat × Option Req) =>
+        match h.srv.locate t.1, t.2 with
+        | some (s, _), some r =>
+          let stable := (s.parts.map (·.conn)).filter fun c => c != t.1 && !movers.contains c
+          let mine := inboxOf t.1 b.ds
+          let isRelay : Option (Out → Bool) := match r with
+            | .entityAdd rid .. =>
+              (mine.findSome? fun o => match o with | .entityAddResp r' eid => if r' == rid then some eid else none | _ => none).map
+                fun eid => fun (o : Out) => match o with | .entityAddBcast _ e => e.id == eid | _ => false
+            | .entityDelete rid _ eid =>
+              if mine.contains (.entityDeleteResp rid) then some fun (o : Out) => match o with | .entityDeleteBcast (some _) e => e == eid | _ => false else none
+            | .custom ots [] _ => some fun (o : Out) => match o with | .customBcast o' _ _ => o' == ots | _ => false
+            | .action rid ots (some _) =>
+              if mine.contains (.actionResp rid) then some fun (o : Out) => match o with | .actionBcast o' _ => o' == ots | _ => false else none
+            | .assetAdd rid .. =>
+              (mine.findSome? fun o => match o with | .assetAddResp r' aid => if r' == rid then some aid else none | _ => none).map
+                fun aid => fun (o : Out) => match o with | .assetAddBcast _ a => a.id == aid | _ => false
+            | _ => none
+          match isRelay with
+          | none => []
+          | some f => stable.filterMap fun c =>
+              let n := ((inboxOf c b.ds).filter f).length
+              if n == 1 then none else some s!"connection {c} received the relay of connection {t.1}'s {reqKind r} {n} times"
+        | _, _ => []
+      let viol := if relayIssues.isEmpty then viol else
+        viol.push ("C02", "relay-not-exactly-once", flatS s!"{" ".intercalate b.ev} :: {relayIssues}")
       let viol := if dupP then viol.push ("C10", "participant-id-issued-twice", flatS s!"{" ".intercalate b.ev} :: {pids}") else viol
       -- entity and asset ids are per session; a block that touches two sessions may legitimately repeat numbers
       let oneSession := (tasks.filterMap fun (t : Nat × Option Req) => (h.srv.locate t.1).map fun x => x.1.id).eraseDups.length ≤ 1
